@@ -835,7 +835,7 @@ void shrink(const Plan& p, std::vector<Plan>& out) {
 
 std::string summary(const Plan& p) { return std::to_string(p.ops.size()) + " ops"; }
 
-const sim::Scenario kScenario = {"C18", "containers", "asan", 24000, 240000, generate, execute, op_name, shrink, summary};
+const sim::Scenario kScenario = {"C18", "containers", "asan", 200000, 4000000, generate, execute, op_name, shrink, summary};
 sim::Registrar reg(kScenario);
 
 const char* const kAssumptions[] = {
